@@ -37,7 +37,8 @@ LEVEL_TEXT = ("Exploration over (configuration, input): for each sub-command eve
               "invalid UTF-8). If the library call returns r the tool must exit 0 and write one JSON text that parses to r "
               "(indented over several lines with --pretty, a single line without); if the library raises a documented-family "
               "error the tool must exit 1 with a non-empty one-line message on stderr and no traceback (non-zero exit only "
-              "under --debug). A foreign library exception belongs to C06 and is excluded here.")
+              "under --debug). A foreign library exception belongs to C06 and is excluded here."
+              ' Queries that span several lines (inline and from a file) are in the valid pool; documents whose strings hold unpaired surrogates run through every output option.')
 LEVEL_TEXT += ' Rejected inputs that themselves carry LF / CR / CRLF are in every invalid pool (the message must stay one line).'
 BUDGET_S = {"quick": 75, "thorough": 500}
 RULE = ("Option matrix (64 combinations for path and pointer, 16 for patch) x inputs from the query / pointer / patch generators "
